@@ -292,7 +292,10 @@ def run_task(task):
     tref = (top[0], top[1], top[2], math.radians(top[3]), top[4])
 
     def stat(name, val):
+        # worst residual per clause; pairs showing a defect signature are kept apart so that the plain names give the
+        # numerical noise of the relations on consistent solutions (what the tolerances are calibrated against)
         if val == val:
+            name = name + (" [pairs with a defect signature]" if sig else "")
             ST[name] = max(ST.get(name, 0.0), float(val))
 
     seen = set()
